@@ -41,6 +41,7 @@
 #define E_COPY_STEP 15
 #define E_PAYLOAD 16
 #define E_PLAN_STEP 17
+#define E_PAYLOAD2 18
 #define M_SELECT 1
 #define M_ENTRY_GUARD 4
 #define M_ENTER 5
@@ -311,7 +312,11 @@ uint32_t vf_cb(uint32_t s, uint32_t m, uint8_t* self) {
 #endif
 #ifdef P_C13
   if (mm == M_ENTRY_GUARD || mm == M_EXIT_GUARD) {
-    /* the answers every guard of the (single-request) round sees */
+    /* the answers the guards of the (single-request) round see: read at the first guard invocation (thorough: at
+       every invocation, with a stability check) */
+#ifndef C13_EVERY_GUARD
+    if (!pq_seen)
+#endif
     for (int x = 0; x < NS; x++) {
       _Bool e = vf_pending_enter(I, x), q = vf_pending_exit(I, x), c = vf_pending_change(I, x);
       if (pq_seen && (e != pq_enter[x] || q != pq_exit[x] || c != pq_change[x])) pq_unstable = 1;
@@ -957,6 +962,28 @@ int main(void) {
   if (attached) { vf_plan_exists_set(I, 0, 1); pl_exists = 1; }     /* a plan may have been attached and emptied earlier */
   phase = 1; plan_ok = 1; cancel_ok = 0; budget = 0;
   vf_update(I);
+#elif ENTRY == E_PAYLOAD2
+  /* C14 across steps: a first step applies a request WITH a payload, a second step one WITHOUT (and vice versa):
+     history slots are reused, the second step's entries must expose exactly the second request's payload */
+  cancel_ok = 0; budget = 0;
+  { unsigned k0 = nondet_uchar();
+    unsigned d0 = nondet_uchar();
+    uint32_t p0 = nondet_uint();
+    _Bool w0 = nondet_bool();
+    __CPROVER_assume(k0 >= 1 && k0 <= 4 && d0 > 0 && d0 < NS && p0 < 0xfffffff0u);
+    pay_val[0] = p0; pay_set[0] = w0; pay_dest[0] = (uint8_t)d0; pay_kind[0] = (uint8_t)k0; pay_n = 1;
+    if (w0) vf_request_with(I, k0, d0, p0); else vf_request(I, k0, d0);
+    vf_update(I);
+    unsigned k1 = nondet_uchar();
+    unsigned d1 = nondet_uchar();
+    uint32_t p1 = nondet_uint();
+    _Bool w1 = nondet_bool();
+    __CPROVER_assume(k1 >= 1 && k1 <= 4 && d1 > 0 && d1 < NS && p1 < 0xfffffff0u);
+    pay_val[0] = p1; pay_set[0] = w1; pay_dest[0] = (uint8_t)d1; pay_kind[0] = (uint8_t)k1; pay_n = 1;
+    rounds = 0; round_cancelled = 0; round_has_entry = 0;
+    for (int x = 0; x < NS; x++) { round_seen_entry[x] = 0; round_seen_exit[x] = 0; }
+    if (w1) vf_request_with(I, k1, d1, p1); else vf_request(I, k1, d1);
+    vf_update(I); }
 #elif ENTRY == E_CONSTRUCT_PAIR
 #elif ENTRY == E_NONE
 #else
